@@ -694,6 +694,11 @@ func (obj *DenseReal64Matrix) UnmarshalJSON(data []byte) error {
   if r.Rows < 0 || r.Cols < 0 || len(r.Values) != r.Rows*r.Cols {
     return fmt.Errorf("invalid dense matrix: %d values given for dimension %dx%d", len(r.Values), r.Rows, r.Cols)
   }
+  for i := 0; i < len(r.Values); i++ {
+    if r.Values[i] == nil {
+      return fmt.Errorf("invalid dense matrix: element %d is null", i)
+    }
+  }
   obj.values = nilDenseReal64Vector(len(r.Values))
   for i := 0; i < len(r.Values); i++ {
     obj.values[i] = r.Values[i]
